@@ -1082,6 +1082,9 @@ impl<'a, I, A> Strategies<'a, I, A> {
     /// Since CFR produces approximate equilibria, often it will return a strategy with very low
     /// probability of playing an action that should never actually be played. Use this to truncate
     /// the probability of small actions when they're played less than `thresh` of the time.
+    ///
+    /// Information sets where no action is played more than `thresh` of the time are left
+    /// unchanged, so the result is always a valid strategy.
     pub fn truncate(&mut self, thresh: f64) {
         for (infos, box_probs) in self.game.player_infosets.iter().zip(self.probs.iter_mut()) {
             for strat in split_by_mut(
@@ -1089,8 +1092,10 @@ impl<'a, I, A> Strategies<'a, I, A> {
                 infos.iter().map(|info| info.num_actions()),
             ) {
                 let total: f64 = strat.iter().filter(|p| p > &&thresh).sum();
-                for p in strat.iter_mut() {
-                    *p = if *p > thresh { *p / total } else { 0.0 }
+                if total > 0.0 {
+                    for p in strat.iter_mut() {
+                        *p = if *p > thresh { *p / total } else { 0.0 }
+                    }
                 }
             }
         }
